@@ -6,7 +6,7 @@ PID = "C18"
 MODULE, PKG, BIN = "core", "./verifh/c18", "c18"
 COQ_IMPORTS = "From Synnax Require Import Common.Base Core.Ontology Core.Rbac Monitors.Mon_C18."
 CASE_TYPE = "case_t"
-COUNTS = {"quick": 240, "thorough": 20000}
+COUNTS = {"quick": 200, "thorough": 4000}
 SHARD = 30
 HARNESS_TIMEOUT = 1500
 
@@ -308,8 +308,33 @@ def model_dump(case, r):
     return coq_print(PID, COQ_IMPORTS, COQ_EXTRA + "\nEval vm_compute in model_dump (%s)." % t)[-8000:]
 
 
-READY = False
-TECHNIQUE = "Coq proof + model/impl correspondence by vm_compute"
+READY = True
+TECHNIQUE = ("Coq proof (allowRequest = forall-exists formula; Enforce = formula over ontology edges via the C16 "
+             "traversal theorems; forward simulation between the model and a set-based reference configuration over "
+             "all histories) + model/impl correspondence by vm_compute")
 DESIGN_REF = "DESIGN.md §8 C18"
-LEVEL_TEXT = "TODO"
-LEVEL_NOTE = "TODO"
+LEVEL_TEXT = ("Machine-checked Coq theorems over an executable Gallina copy of the RBAC stack built on the C16 ontology "
+              "model (ResolveSubjects as subject -> parents filtered by the 'role' key prefix -> children filtered by "
+              "the 'policy' prefix and by the policy service lookup; retrievePolicies; allowRequest; role / policy "
+              "writers; copy-on-write transactions): allowRequest is exactly the property's forall-object "
+              "exists-policy formula (C18_allow_request_spec); on every well-formed configuration Enforce allows iff "
+              "the subject exists and every object is covered by a live policy attached to a role assigned to the "
+              "subject, otherwise Deny, or NotFound for an unknown subject (C18_enforce_iff); and for EVERY history of "
+              "create/delete role and policy, SetOnRole, assign/unassign, define/delete subject inside committed and "
+              "aborted transactions, every request at every point gets Allow iff the formula holds of the set-based "
+              "reference configuration the history builds, in the transaction's view and in the committed view "
+              "(C18_history_enforce_iff, C18_history_all_checks) — which contains the 'very next check' clause. The "
+              "model is tied to /repo on every run by driving the real policy/role services and the rbac Enforcer "
+              "over ontology+memkv through generated histories, comparing all four tables in both views, "
+              "RetrievePoliciesForSubject of every subject and every Enforce verdict inside Coq; the monitor evaluates "
+              "the reference configuration on the implementation's own outcomes and yields the replay.")
+LEVEL_NOTE = ("Trusted: Coq kernel/vm_compute; hand-written model (tied by correspondence); harness + hooks "
+              "(VerifService assembles rbac.Service without provisioning built-ins; VerifScan); UUID keys and the "
+              "Users-group key are reported under short aliases; generator. Theorems closed under the global context. "
+              "F12 (role.Delete left the ontology resource: deleted role's policies still granted) and F26 "
+              "(policy.Delete left the ontology resource and role->policy edges: a policy re-created under the same "
+              "key was attached to its former roles at once) were reproduced by this check and repaired by fix: "
+              "commits; C18_f12_role_delete_refuted / C18_f26_policy_delete_refuted keep the witnesses. Guards: role / "
+              "policy keys and subjects are good identifiers (no '->', see C16 F20), subject types do not extend "
+              "'role' / 'policy' (WhereTypes is a key-prefix test). Not modelled: built-in provisioning and legacy "
+              "migrations, Internal-flag semantics beyond the writer guards, interleaved transactions.")
